@@ -1,5 +1,5 @@
 (* C17 proofs, part 9: the wire format.  What the model prints is parsed back to itself, so the statement
-   "the SPEC accepts the model" also holds at the level of token lines: run_spec l (run_model l) = []. *)
+   "the SPEC accepts the model" also holds at the level of token lines: run_spec_seq l (run_model_seq l) = []. *)
 From V Require Import C17.Glue C17.ProofsReg C17.ProofsBase C17.ProofsSum C17.ProofsGauge C17.ProofsMeets C17.ProofsHist C17.ProofsLv C17.ProofsTop.
 From Coq Require Import Lia ZifyBool ZifyNat.
 Local Open Scope Z_scope.
@@ -142,9 +142,9 @@ Proof.
 Qed.
 
 (* ------------------------------------------------------------------ model_meets_spec on token lines *)
-Theorem model_meets_spec_wire_lemma : forall l cs, parse_case l = Some cs -> run_spec l (run_model l) = [].
+Theorem model_meets_spec_wire_lemma : forall l cs, parse_case l = Some cs -> run_spec_seq l (run_model_seq l) = [].
 Proof.
-  intros l cs Hp. pose proof (parsed_case_good l cs Hp) as Hg. unfold run_spec, run_model. rewrite Hp. destruct cs as [c ops|sc ops].
+  intros l cs Hp. pose proof (parsed_case_good l cs Hp) as Hg. unfold run_spec_seq, run_model_seq. rewrite Hp. destruct cs as [c ops|sc ops].
   - rewrite parse_print_obs. now apply (model_meets_spec_lemma (CObs c ops)).
   - rewrite parse_print_lv. now apply (model_meets_spec_lemma (CLv sc ops)).
 Qed.
